@@ -110,7 +110,7 @@ def coq_check(ctx, name, fn, items, shard=300):
         rc, out, err = coqtool.run_cases('c17_' + name, body)
         bad = coqtool.parse_nat_list(out) if rc == 0 else None
         if bad is None:
-            ctx.broken.append({'kind': 'correspondence', 'name': '%s (coqc failed)' % name, 'detail': (err + out)[-1500:]})
+            ctx.broken.append({'kind': 'correspondence', 'name': '%s (coqc failed)' % name, 'detail': (err + out)[:700] + ' ... ' + (err + out)[-800:]})
             return None
         bad_all += [s + i for i in bad]
     return bad_all
@@ -331,7 +331,7 @@ def run(ctx):
                                   'call %d on the same file gives a different configuration than the same call on its own (earlier overrides leak or '
                                   'the result is cached)' % (k_ + 1), dict(case, observed=a.get('v', a), expected=b.get('v', b)))
             if a['r'] == 'ok' and a['v'].get('tree') is not None:
-                items.append('(%s, %s, %s, OTree %s)' % (ckvs(s), ckvs(st or {}), cstrs([]), cflat(a['v']['tree'])))
+                items.append('(%s, %s, (@nil string), OTree %s)' % (ckvs(s), ckvs(st or {}), cflat(a['v']['tree'])))
                 keep.append(case)
     bad = coq_check(ctx, 'configure_seq', 'conf_ok', items)
     if bad is not None:
